@@ -221,9 +221,13 @@ def run(facts, res):
             if not any(any(t.path in appliers for t in ss.targets) for cb in s.closures for ss in cg.sites[cb.path]):
                 continue
             recv = arg_term(b, s.term, 0, 30)
-            names = [callee_name(x) for x in walk(recv, False) if x[0] == "call"]
-            whole = "iter" in names and any(x[0] == "field" and x[2] == "deltas" for x in walk(recv)) and \
-                not (set(names) & {"take", "skip", "filter", "step_by", "take_while", "skip_while", "rev"})
+            from ..common import iter_chain, PARTIAL_ADAPTERS
+            chain = iter_chain(recv)
+            names = [callee_name(x) for x in chain]
+            # the chain starts at the block map itself (not at some other collection whose closure merely looks blocks up)
+            src_ok = bool(chain) and any(callee_name(c_) in ("iter", "par_iter", "values", "into_iter") and c_[2] and
+                                         any(x[0] == "field" and x[2] == "deltas" for x in walk(c_[2][0], False)) for c_ in chain)
+            whole = src_ok and not (set(names) & (PARTIAL_ADAPTERS | {"flat_map", "map_while", "find", "find_map"}))
             ready = all(c02.status_guard(cb, ss.block, facts) == "Ready" for cb in s.closures for ss in cg.sites[cb.path]
                         if any(t.path in appliers for t in ss.targets))
             ok = whole and ready
